@@ -211,6 +211,19 @@ fn main() {
             }
         }
         for micro in [0u32, 1, 499_999, 999_999] {
+            // the precise-time parser reads what to_encoded writes (leap seconds included) and agrees with the value's own conversion
+            t.cases += 1;
+            if let Ok(v) = DicomTime::from_hms_micro(h, m, s, micro) {
+                let text = v.to_encoded();
+                let parsed = dicom_core::value::deserialize::parse_time(text.as_bytes()).ok().map(|x| x.0);
+                if parsed != naive(h, m, s, micro) || parsed != v.to_naive_time().ok() {
+                    t.fail(format!("parse_time({:?}) = {:?}, the value converts to {:?}", text, parsed, v.to_naive_time().ok()));
+                }
+                let short = format!("{:02}{:02}{:02}", h, m, s);
+                if micro == 0 && dicom_core::value::deserialize::parse_time(short.as_bytes()).ok().map(|x| x.0) != naive(h, m, s, 0) {
+                    t.fail(format!("parse_time({:?}) does not give {:?}", short, naive(h, m, s, 0)));
+                }
+            }
             t.cases += 1;
             match DicomTime::from_hms_micro(h, m, s, micro) {
                 Ok(v) if v.to_encoded() == format!("{:02}{:02}{:02}.{:06}", h, m, s, micro) && v.earliest().ok() == naive(h, m, s, micro) && v.latest().ok() == naive(h, m, s, micro) => {}
